@@ -72,7 +72,7 @@ def gen_cases(seed, tier):
 
 # ------------------------------------------------------------------ recording
 def make_recording(rng, d, ns, n, name="rec", faults=False):
-    kind = "3B2" if n != 384 or rng.random() < 0.5 else "NP2.4"
+    kind = str(rng.choice(["3B2", "NP2.1", "NP2.4", "3B2", "NP2.4"]))      # every generation, also with fewer saved channels (sampling delays, gains and sync gain differ)
     rec = G.make(rng, kind=kind, sites=G.draw_sites(rng, kind, n, "dense"), ns=ns, raw=np.zeros((1, 1), np.int16))
     s2v = rec.s2v[:n]
     t = np.arange(ns)[:, None]
